@@ -62,8 +62,13 @@ func checkExactPositions(e *Entry, x string, res ParseResult) (viol map[string]s
 	for i, v := range vs {
 		n := v.Node
 		p, en, ok := safePosEnd(n)
-		if !ok || p < 0 || en < p || en > len(x) {
-			continue // C04/C05
+		if !ok {
+			continue // C04
+		}
+		if p < 0 || en < p || en > len(x) {
+			// no text is delimited at all (C05 reports the same node under its own clauses)
+			fails[i] = append(fails[i], fail{"C06/invalid-range/" + oracle.TypeName(n), fmt.Sprintf("%s at %s: Pos()=%d End()=%d delimit no substring of the %d-byte input", oracle.TypeName(n), v.Path, p, en, len(x))})
+			continue
 		}
 		nodes++
 		tn := oracle.TypeName(n)
@@ -164,6 +169,9 @@ func C06(r *explore.Run) {
 // C16
 
 var trivia = []string{" ", "\n", "\t ", "/*c*/", " /* c */ ", "--c\n", "#c\n", "//c\n", "", "\f", "\v", "\r\n", "\u00a0", "\u3000\u0085", "/***/", "/* x **/", "/*/ */"}
+
+// endTrivia are trivia forms that are complete only at the very end of the input.
+var endTrivia = []string{"#", "--", " //", "-- c", "/**/", " #c"}
 
 func caseVariant(s string, k int) string {
 	switch k {
@@ -279,6 +287,13 @@ func respell(r *explore.Run, sDev, rDev int, trivia []string) {
 					}
 					b.WriteString(tx)
 					last := i+1 == len(s.Src)
+					if last {
+						// comments that only the end of the input can terminate
+						if k := pick(1 + len(endTrivia)); k != 0 {
+							b.WriteString(endTrivia[k-1])
+							break
+						}
+					}
 					k := pick(len(trivia))
 					switch {
 					case last && k == 0:
